@@ -17,14 +17,30 @@
      FC6  a helper is left by name when a name it still uses freely is bound at the call site ([free_in])
      FC5  the Lambda of a captured helper is itself rewritten with the helper's own snapshot before it is
           used ([helper_capval]; any error, and recursion, leave the helper by name)
+     FC7  every parameter of a lambda (positional-only, keyword-only, *args, **kwargs too) is on the ignore stack of
+          _rewrite_captured_vars while its body is visited ([lv_params])
+     FC8  default values of a lambda's parameters are rewritten in the enclosing scope (not under the parameters)
+     F30  a called lambda with a starred argument is not "plainly called": the call stays ([is_starred])
+     F31  _resolve_called_lambdas.visit_Lambda: default values are resolved in the enclosing scope (the argument maps
+          in flight apply to them, the lambda's own parameters do not hide them), the body under the parameters
+     F32  _inner_binders counts every parameter of a lambda that stays (keyword-only, positional-only, * and ** too)
    What [inspect.getclosurevars] / [f.__globals__] / [getattr] report at the moment of the call is
    an *input* of the model (the snapshot [cenv]); it is validated by correspondence only.
 
-   Domain: trees in which every ast.Lambda has only plain positional parameters (any other
-   parameter list is an [Other] node and is treated by generic_visit here; the harness does not
-   send such trees to the model, it checks them with the oracle only). *)
+   Lambdas.  [Lambda ps b] (PyAst.v) is a lambda with plain positional parameters and no default values.  Any other
+   ast.Lambda arrives (harness/bridge.py) as
+       Other "Lambda;args=n;body=n" [] [ Other "arguments;posonlyargs=[..];args=[..];vararg=..;kwonlyargs=[..];
+                                                kw_defaults=[..];defaults=[..];kwarg=.." atoms kids ; body ]
+   where [kids] are, in ast.iter_fields order, the [ast.arg] nodes (Other "arg;arg=a;annotation=..;type_comment=.."
+   [CStr name] [annotation?]) and the default expressions, and the layout in the class string tells how many kids each
+   field has ("[nn]" two nodes, "n" one, "0" none, "a" an atom = a None entry of kw_defaults).  [lam_view] decodes
+   that: the names of node.args.args ([lv_args]), every bound name ([lv_params] = util_ast._lambda_parameters) and
+   whether only `args` is populated ([lv_simple], the last conjunct of _plainly_called).  A node of this class that
+   does not decode (no parser produces one) is treated by generic_visit.
+   A starred argument `*x` is Other "Starred;value=n" [] [x]. *)
 From FA.Base Require Import PyAst Value Traverse.
 From FA.Gen Require Import TablesUtil.
+From Coq Require Import Ascii.
 
 (* ---------- results: where the Python raises, an explicit error ---------- *)
 Inductive err := EValueError | ECrash.       (* ValueError  vs  any other exception (internal crash) *)
@@ -136,6 +152,80 @@ Fixpoint comp_targets (gs : list expr) : list string :=
 
 Definition is_compfor (e : expr) : bool := match e with CompFor _ _ _ _ => true | _ => false end.
 
+(* ---------- starred arguments; lambdas with default values / other parameter kinds (bridge.py's encoding) ---------- *)
+
+(* isinstance(x, ast.Starred) *)
+Definition is_starred (e : expr) : bool :=
+  match e with Other cls _ _ => String.prefix "Starred;" cls | _ => false end.
+
+(* an ast.arg node, and the name it binds *)
+Definition is_argnode (e : expr) : bool :=
+  match e with Other cls _ _ => String.prefix "arg;" cls | _ => false end.
+
+Definition argnode_name (e : expr) : option string :=
+  match e with Other _ (CStr s :: _) _ => Some s | _ => None end.
+
+Fixpoint argnode_names (l : list expr) : option (list string) :=
+  match l with
+  | [] => Some []
+  | a :: l' => match argnode_name a, argnode_names l' with
+               | Some x, Some xs => Some (x :: xs)
+               | _, _ => None
+               end
+  end.
+
+(* "Class;f1=l1;f2=l2" -> ["Class"; "f1=l1"; "f2=l2"] *)
+Fixpoint split_semi (s : string) : list string :=
+  match s with
+  | EmptyString => [EmptyString]
+  | String c r =>
+      if Ascii.eqb c ";"%char then EmptyString :: split_semi r
+      else match split_semi r with
+           | h :: t => String c h :: t
+           | [] => [String c EmptyString]
+           end
+  end.
+
+Fixpoint count_n (s : string) : nat :=
+  match s with
+  | EmptyString => 0
+  | String c r => (if Ascii.eqb c "n"%char then 1 else 0) + count_n r
+  end.
+
+(* number of child nodes the field [name] (given with its "=") holds, read off the layout; 0 when absent *)
+Fixpoint field_nodes (name : string) (fields : list string) : nat :=
+  match fields with
+  | [] => 0
+  | f :: fs => if String.prefix name f then count_n (substring (String.length name) (String.length f) f)
+               else field_nodes name fs
+  end.
+
+Record lamv := {
+  lv_args : list string;      (* [a.arg for a in node.args.args] *)
+  lv_params : list string;    (* util_ast._lambda_parameters(node): every name the lambda binds *)
+  lv_simple : bool;           (* not (posonlyargs or kwonlyargs or vararg or kwarg) *)
+}.
+
+(* [acls], [akids]: class string and child nodes of the ast.arguments node *)
+Definition lam_view (acls : string) (akids : list expr) : option lamv :=
+  if String.prefix "arguments;" acls then
+    let fs := split_semi acls in
+    let np := field_nodes "posonlyargs=" fs in
+    let na := field_nodes "args=" fs in
+    match argnode_names (filter is_argnode akids) with
+    | Some all =>
+        Some {| lv_args := firstn na (skipn np all);
+                lv_params := all;
+                lv_simple := Nat.eqb np 0 && Nat.eqb (field_nodes "vararg=" fs) 0
+                             && Nat.eqb (field_nodes "kwonlyargs=" fs) 0 && Nat.eqb (field_nodes "kwarg=" fs) 0 |}
+    | None => None
+    end
+  else None.
+
+(* generic_visit over the children of an ast.arguments node as the fixed visit_Lambda methods do it: the ast.arg
+   nodes are left alone, the default expressions are visited with [f] *)
+Definition on_defaults (f : expr -> expr) (k : expr) : expr := if is_argnode k then k else f k.
+
 (* "ns.<chain>": the dotted namespace in front of the root name of an attribute chain *)
 Fixpoint ns_chain (ns : list string) (acc : option expr) : option expr :=
   match ns with
@@ -240,6 +330,16 @@ Fixpoint free_in (bd : list string) (e : expr) {struct e} : list string :=
             free_gens (free_in bd) (free_in bd') true gs ++ free_in bd' k ++ free_in bd' v
         | _ => flat_map (free_in bd) cs
         end
+      else if String.prefix "Lambda;" cls then
+        (* bound | {a.arg for a in node.args.args}, then every child node (the arguments node too) *)
+        match cs with
+        | [Other acls _ akids; _] =>
+            match lam_view acls akids with
+            | Some lv => flat_map (free_in (lv_args lv ++ bd)) cs
+            | None => flat_map (free_in bd) cs
+            end
+        | _ => flat_map (free_in bd) cs
+        end
       else flat_map (free_in bd) cs
   end.
 
@@ -339,6 +439,20 @@ Section Rewrite.
                       Ok (Other cls atoms (fst pk :: fst pv :: gs'))))))
           | _ => Err ECrash
           end
+        else if String.prefix "Lambda;" cls then
+          (* visit_Lambda on a lambda with default values / other parameter kinds: the defaults are rewritten in the
+             enclosing scope (FC8), the body with every bound name on the ignore stack (FC7) *)
+          match cs with
+          | [Other acls aatoms akids; b] =>
+              match lam_view acls akids with
+              | Some lv =>
+                  same (sbind (rw_list (fun k => if is_argnode k then Ok (k, k) else rw st k) akids) (fun akids' =>
+                        sbind (rw (lv_params lv :: st) b) (fun pb =>
+                          Ok (Other cls atoms [Other acls aatoms akids'; fst pb]))))
+              | None => same (sbind (rw_list (rw st) cs) (fun cs' => Ok (Other cls atoms cs')))
+              end
+          | _ => same (sbind (rw_list (rw st) cs) (fun cs' => Ok (Other cls atoms cs')))
+          end
         else same (sbind (rw_list (rw st) cs) (fun cs' => Ok (Other cls atoms cs')))
     end.
 
@@ -369,6 +483,27 @@ Definition res_gens (f_out f_in : expr -> expr) : bool -> list expr -> list expr
         end
     end.
 
+(* F32: set(_lambda_parameters(node)) for a lambda that is an [Other] node: every name it binds *)
+Definition lam_bound (cls : string) (cs : list expr) : list string :=
+  if String.prefix "Lambda;" cls
+  then match cs with
+       | [Other acls _ akids; _] => match lam_view acls akids with Some lv => lv_params lv | None => [] end
+       | _ => []
+       end
+  else [].
+
+(* the decoded parts of an [Other cls _ cs] node that is a lambda: class string, atoms and children of its
+   ast.arguments node, its body, its parameter view.  (The visitors below repeat this case analysis in place, as
+   structural recursion requires; Proofs/CaptureProofs.v relates them to [lam_parts].) *)
+Definition lam_parts (cls : string) (cs : list expr) : option (string * list const * list expr * expr * lamv) :=
+  if String.prefix "Lambda;" cls
+  then match cs with
+       | [Other acls aatoms akids; b] =>
+           match lam_view acls akids with Some lv => Some (acls, aatoms, akids, b, lv) | None => None end
+       | _ => None
+       end
+  else None.
+
 (* FC4: names bound inside [e] by lambdas and comprehensions that may stay in the tree.  A called lambda of the
    inlinable shape whose body has no such binder is certainly inlined: its parameters disappear. *)
 Fixpoint inner_binders (e : expr) : list string :=
@@ -378,10 +513,28 @@ Fixpoint inner_binders (e : expr) : list string :=
       match f with
       | Lambda ps b =>
           match kwn, inner_binders b with
-          | [], [] => if Nat.eqb (length ps) (length args) then flat_map inner_binders args
+          | [], [] => if Nat.eqb (length ps) (length args) && negb (existsb is_starred args)
+                      then flat_map inner_binders args
                       else ps ++ flat_map inner_binders args ++ flat_map inner_binders kwv
           | _, bb => ps ++ bb ++ flat_map inner_binders args ++ flat_map inner_binders kwv
           end
+      | Other cls _ cs =>
+          let generic := lam_bound cls cs ++ flat_map inner_binders cs
+                         ++ flat_map inner_binders args ++ flat_map inner_binders kwv in
+          (* a called lambda with default values, plainly called: as above *)
+          if String.prefix "Lambda;" cls then
+            match cs with
+            | [Other acls _ akids; b] =>
+                match lam_view acls akids, kwn, inner_binders b with
+                | Some lv, [], [] =>
+                    if lv_simple lv && Nat.eqb (length (lv_args lv)) (length args) && negb (existsb is_starred args)
+                    then flat_map inner_binders args
+                    else generic
+                | _, _, _ => generic
+                end
+            | _ => generic
+            end
+          else generic
       | _ => inner_binders f ++ flat_map inner_binders args ++ flat_map inner_binders kwv
       end
   | Lambda ps b => ps ++ inner_binders b
@@ -396,7 +549,10 @@ Fixpoint inner_binders (e : expr) : list string :=
   | Dict ks vs => flat_map inner_binders ks ++ flat_map inner_binders vs
   | Subscript v s => inner_binders v ++ inner_binders s
   | ListComp x gs | GenExp x gs => inner_binders x ++ flat_map inner_binders gs
-  | Other _ _ cs => flat_map inner_binders cs
+  | Other cls _ cs =>
+      (* a lambda with default values / other parameter kinds binds every one of its parameters (F32); then every
+         child node (the default values too) *)
+      lam_bound cls cs ++ flat_map inner_binders cs
   end.
 
 Definition overlaps (used bs : list string) : bool :=
@@ -412,6 +568,9 @@ Fixpoint res (st : list amap) (e : expr) {struct e} : expr :=
           | [] =>
               if Nat.eqb (length ps) (length args)
               then
+                if existsb is_starred args
+                then Call (Lambda ps (res (shadow ps :: st) b)) (map (res st) args) kwn (map (res st) kwv)   (* F30 *)
+                else
                 let args' := map (res st) args in
                 if overlaps (flat_map names_in args') (inner_binders b)
                 then Call (Lambda ps (res (shadow ps :: st) b)) args' [] []            (* FC4: the call stays *)
@@ -419,6 +578,26 @@ Fixpoint res (st : list amap) (e : expr) {struct e} : expr :=
               else Call (Lambda ps (res (shadow ps :: st) b)) (map (res st) args) kwn (map (res st) kwv)
           | _ => Call (Lambda ps (res (shadow ps :: st) b)) (map (res st) args) kwn (map (res st) kwv)   (* FC2 *)
           end
+      | Other cls _ cs =>
+          (* a called lambda with default values: inlined when python binds exactly its positional parameters *)
+          let stays := Call (res st f) (map (res st) args) kwn (map (res st) kwv) in
+          if String.prefix "Lambda;" cls then
+            match cs with
+            | [Other acls _ akids; b] =>
+                match lam_view acls akids, kwn with
+                | Some lv, [] =>
+                    if lv_simple lv && Nat.eqb (length (lv_args lv)) (length args) && negb (existsb is_starred args)
+                    then
+                      let args' := map (res st) args in
+                      if overlaps (flat_map names_in args') (inner_binders b)
+                      then stays                                                            (* FC4 *)
+                      else res (combine (lv_args lv) (map (@Some expr) args') :: st) b
+                    else stays
+                | _, _ => stays
+                end
+            | _ => stays
+            end
+          else stays
       | _ => Call (res st f) (map (res st) args) kwn (map (res st) kwv)
       end
   | Lambda ps b => Lambda ps (res (shadow ps :: st) b)
@@ -458,6 +637,17 @@ Fixpoint res (st : list amap) (e : expr) {struct e} : expr :=
             let st' := shadow (comp_targets gs) :: st in
             Other cls atoms (res st' k :: res st' v :: res_gens (res st) (res st') true gs)
         | _ => e
+        end
+      else if String.prefix "Lambda;" cls then
+        (* F31, visit_Lambda: the default values in the enclosing scope, the body under every bound name *)
+        match cs with
+        | [Other acls aatoms akids; b] =>
+            match lam_view acls akids with
+            | Some lv => Other cls atoms [Other acls aatoms (map (on_defaults (res st)) akids);
+                                          res (shadow (lv_params lv) :: st) b]
+            | None => Other cls atoms (map (res st) cs)
+            end
+        | _ => Other cls atoms (map (res st) cs)
         end
       else Other cls atoms (map (res st) cs)
   end.
